@@ -59,6 +59,9 @@ fn main() {
     mon::start_watchdog(cpu_limit, wall_limit);
     let t0 = std::time::Instant::now();
     let rep = if let Some(path) = replay {
+        // the replayed case runs on this thread: put it under the CPU watchdog and the death recorder
+        mon::register_thread(0);
+        mon::begin_case(0, 0, 0, 0);
         let txt = std::fs::read_to_string(&path).expect("read replay file");
         let v: serde_json::Value = serde_json::from_str(&txt).expect("parse replay file");
         let case = v.get("replay").cloned().unwrap_or(v);
